@@ -85,11 +85,14 @@ pub struct TestLogp {
     /// after announcing an unrecoverable fault, keep the failing evaluation in flight this long (C13: a failure that
     /// overlaps an abort)
     pub fatal_sleep_ms: u64,
+    /// declare only the model's own dimension ("dim"), as a user's model does; the sampler's
+    /// `unconstrained_parameter` dimension is then not in the model's table
+    pub own_dims_only: bool,
 }
 
 impl TestLogp {
     pub fn new(kind: Kind, dim: usize) -> Self {
-        TestLogp { kind, dim, evals: 0, faults: HashMap::new(), log_evals: false, delay_us: 0, announce: None, fatal_sleep_ms: 0 }
+        TestLogp { kind, dim, evals: 0, faults: HashMap::new(), log_evals: false, delay_us: 0, announce: None, fatal_sleep_ms: 0, own_dims_only: false }
     }
 
     pub fn eval(&self, x: &[f64], g: &mut [f64]) -> f64 {
@@ -171,6 +174,9 @@ impl TestLogp {
 
 impl HasDims for TestLogp {
     fn dim_sizes(&self) -> HashMap<String, u64> {
+        if self.own_dims_only {
+            return HashMap::from([("dim".to_string(), self.dim as u64)]);
+        }
         HashMap::from([
             ("unconstrained_parameter".to_string(), self.dim as u64),
             ("dim".to_string(), self.dim as u64),
